@@ -185,7 +185,18 @@ V2 ==
        /\ tgt = [acls |-> [E0_in |-> b], intfs |-> [i \in is |-> I("", IF i = "E0" THEN "E0_in" ELSE "", "")], routes |-> {}, xe |-> FALSE,
                  cmaps |-> tv, ifcm |-> [i \in is |-> IF i = "E1" /\ vpn THEN "VPN" ELSE ""]]
 
-Init == CASE Fam = "M2L" -> M2L [] Fam = "V2" -> V2 [] Fam = "V1L" -> V1L [] Fam = "F1L" -> F1L [] Fam = "M1" -> M1 [] Fam = "F1" -> F1 [] Fam = "F3" -> F3 [] Fam = "F4" -> F4 [] Fam = "F7" -> F7 [] Fam = "F8" -> F8
+(* S1: spellings.  One line (plus a common tail) per side over services that the device prints by name  *)
+(* and Netspoc by number (protocols, ICMP types, port ranges, ntp); neighbouring services differ in one *)
+(* number only                                                                                          *)
+SvcS == {"esp", "ah", "gre", "icmp8", "icmp0", "icmp3-1", "tcp2021", "tcp2022", "tcpgt", "tcplt", "udp123", "udp124", "tcp80", "udp53"}
+PoolS1 == {Ace("permit", v, T("host", "h1"), T("any", "")) : v \in SvcS}
+S1 ==
+  \E a, b \in {<<>>} \cup {<<x>> : x \in PoolS1}, tail \in {<<>>, <<Ace("deny", "ip", T("any", ""), T("any", ""))>>} :
+    /\ a \o tail # <<>> /\ b \o tail # <<>>
+    /\ dev = Cfg([E0_in |-> a \o tail], [E0 |-> I("", "E0_in", "")], {}, FALSE)
+    /\ tgt = Cfg([E0_in |-> b \o tail], [E0 |-> I("", "E0_in", "")], {}, FALSE)
+
+Init == CASE Fam = "S1" -> S1 [] Fam = "M2L" -> M2L [] Fam = "V2" -> V2 [] Fam = "V1L" -> V1L [] Fam = "F1L" -> F1L [] Fam = "M1" -> M1 [] Fam = "F1" -> F1 [] Fam = "F3" -> F3 [] Fam = "F4" -> F4 [] Fam = "F7" -> F7 [] Fam = "F8" -> F8
 Next == UNCHANGED <<dev, tgt>>
 Out == PrintT(<<"VOUT", ToJson([fam |-> Fam, dev |-> dev, tgt |-> tgt, tie |-> FALSE])>>)
 =============================================================================
